@@ -31,6 +31,12 @@ The oracle inside post_source is the language's own field access / address-of; p
 `std::backtrace::Backtrace` fields are included: Kani's toolchain is a nightly, the harness crate enables
 `error_generic_member_access` (the expansion's `provide()` needs it whenever a backtrace field is detected).
 
+Attribute spelling: one `#[error(..)]` may carry several parameters (`not(backtrace), source`); every parameter counts whatever its
+position (a_src / a_nsrc / a_bt / a_nbt look at the parameter set).  Type spelling: a field is Backtrace-named by the LAST segment
+of its type path (`Backtrace`, `std::backtrace::Backtrace`, `::std::..`, `bt::Backtrace`, `self::bt::Backtrace`: BT_TYPES).
+QUICK_GROUPS (both tiers): `grpq_{st,en}_<tag>_<i>` hold <= 8 layouts behind one harness (not(..) beside the candidate, multi-parameter
+attributes, Backtrace path spellings); the failing assertion names the layout.
+
 Structure: the systematic core is one layout per program (a finding names its layout); the thorough tier adds the
 wider product in groups of <= 8 layouts per program (Kani's per-harness code generation dominates the cost).
 Layouts with an ignored field next to other fields are grouped apart (`grp_*_ign_*`).
